@@ -13,8 +13,9 @@ def _h(s):
 
 
 class Canon:
-    def __init__(self, root, repo='/repo'):
+    def __init__(self, root, repo='/repo', outer=None):
         self.root = os.path.realpath(root) if root else None
+        self.outer = os.path.realpath(outer) if outer else None
         self.repo = repo
 
     def path(self, p):
@@ -23,6 +24,8 @@ class Canon:
         p = str(p)
         if self.root and (p == self.root or p.startswith(self.root + os.sep)):
             return '<w>' + p[len(self.root):]
+        if self.outer and (p == self.outer or p.startswith(self.outer + os.sep)):
+            return '<r>' + p[len(self.outer):]
         if p.startswith(self.repo + os.sep):
             return '<repo>' + p[len(self.repo):]
         return p
@@ -31,7 +34,10 @@ class Canon:
         # absolute scratch paths can appear inside descriptions / messages
         if s is None or not self.root:
             return s
-        return s.replace(self.root, '<w>')
+        s = s.replace(self.root, '<w>')
+        if self.outer:
+            s = s.replace(self.outer, '<r>')
+        return s
 
     def name(self, n, light=False):
         r = [n.name, n.type, self.path(n.module_path), n.line, n.column]
